@@ -1031,7 +1031,16 @@ class ChannelFactory:
         if item is not None:
             callback, endmarker, _strconfig = item
             if endmarker is not NO_ENDMARKER_WANTED:
-                callback(endmarker)
+                try:
+                    callback(endmarker)
+                except Exception as exc:
+                    # the channel is closed already, there is nobody left to
+                    # report to: the receiver thread (and with it every other
+                    # channel of the gateway) must not die of it
+                    self.gateway._trace(
+                        "exception in endmarker callback of channel %r:" % id,
+                        self.gateway._geterrortext(exc),
+                    )
 
     def _local_close(self, id: int, remoteerror=None, sendonly: bool = False) -> None:
         channel = self._channels.get(id)
